@@ -26,7 +26,8 @@ theorem invoke_inv (hml : MarkerLast cfg) (hB : 1 ≤ cfg.B) {t : Tree} {tr : Li
     · rw [if_pos hd]
       have h' : GI cfg (Action.mkdirOut.apply t) tr p jk :=
         { iters := h.iters, junk := h.junk, jkcur := h.jkcur, out := (by intro hh; cases hh),
-          crun := h.crun, comp := h.comp, launched := h.launched, noScript := h.noScript, userSafe := h.userSafe }
+          crun := h.crun, comp := h.comp, launched := h.launched, noScript := h.noScript, userSafe := h.userSafe,
+          lord := h.lord }
       exact invokeCore_inv cfg hml hB h' rfl _
     · rw [if_neg hd]
       exact ⟨p, jk, by simpa using h⟩
